@@ -675,3 +675,21 @@ fn diriter_run_cut_by_deleted() { diriter_run_cut_check(false); }
 #[kani::proof]
 #[kani::unwind(264)]
 fn diriter_run_cut_by_label() { diriter_run_cut_check(true); }
+
+/// must-fail twin (vacuity guard for the slot-allocation harnesses): claims that a new entry is always appended at the end
+/// marker, i.e. that holes are never reused. Has to be refuted.
+#[kani::proof]
+#[kani::unwind(13)]
+fn twin_find_free_always_appends() {
+    let g = geo();
+    let dir = sparse_dir();
+    let dev = mk_dev(dir);
+    let fs = ManuallyDrop::new(mk_fs_plain(dev, &g, NullTimeProvider::new(), false));
+    let root = ManuallyDrop::new(fs.root_dir());
+    let r = root.find_free_entries(1);
+    let stream = match r { Ok(s) => ManuallyDrop::new(s), Err(_) => return };
+    let pos = match stream.abs_pos() { Some(p) => p - g.root_base(), None => return };
+    let mut e = 0;
+    while e < 4 && kind_of(&dir, e) != Kind::End { e += 1; }
+    assert!(pos == e as u64 * 32);
+}
